@@ -4,7 +4,8 @@
    query_selects · substrings, plain atoms · pinned tree vs repaired · witnesses and examples. *)
 From Coq Require Import List NArith ZArith Bool Arith Lia.
 Import ListNotations.
-From Verif Require Import Base.Val C01.Model_C01 C04.Model_C04 C44.Model_C44 C44.Spec_C44.
+From Verif Require Import Base.Val C01.Model_C01 C04.Model_C04.
+From Verif Require Import C44.Model_C44 C44.Spec_C44.
 From Verif Require C03.Model_C03.
 Local Open Scope N_scope.
 
@@ -475,6 +476,65 @@ Proof.
   destruct (Model_C03.parse_atom None false (strip t)); reflexivity.
 Qed.
 
+(* ------------------------------------------------------------------ the atom clause, precisely *)
+Lemma slot_part_cases attr exact tok :
+  (bad_tok tok = true /\ slot_part attr exact tok = None)
+  \/ (bad_tok tok = false /\ exists l, slot_part attr exact tok = Some l).
+Proof.
+  unfold bad_tok, slot_part, convert_glob.
+  destruct (is_nil tok) eqn:En.
+  - right. destruct tok; [|discriminate]. split; [reflexivity|eauto].
+  - destruct (mem c_star tok) eqn:Em; cbn [andb negb orb]; [|right; split; [reflexivity|eauto]].
+    destruct (str_eqb tok [c_star]); cbn [negb andb]; [right; split; [reflexivity|eauto]|].
+    destruct (valid_glob tok); cbn [negb]; [right; split; [reflexivity|eauto]|left; split; reflexivity].
+Qed.
+
+Lemma head_cases t : mem c_bang t = false ->
+  (head_rejects t = true /\ parse_head t = HBadGlob)
+  \/ (head_rejects t = false /\ exists rs, parse_head t = HOk (strip t) (q_body (split_query t)) rs).
+Proof.
+  intros Hb. unfold parse_head, head_rejects, split_query. rewrite (mem_strip c_bang t eq_refl), Hb.
+  destruct (rsplit_dcolon (strip t)) as [[a r]|];
+    (destruct (Model_C03.split_last c_colon _) as [[b sl]|];
+     [ destruct (Model_C03.split_first c_slash sl) as [[x y]|]; cbn [q_slot q_sub q_body];
+       [ destruct (slot_part_cases 2 RSlot x) as [[-> ->]|[-> [lx ->]]];
+         [left; split; reflexivity|];
+         destruct (slot_part_cases 3 RSubSlot y) as [[-> ->]|[-> [ly ->]]];
+         [left; split; reflexivity|right; split; [reflexivity|eauto]]
+       | destruct (slot_part_cases 2 RSlot sl) as [[-> ->]|[-> [lx ->]]];
+         [left; split; reflexivity|right; split; [reflexivity|cbn; eauto]] ]
+     | right; cbn [q_slot q_sub q_body]; split; [reflexivity|eauto] ]).
+Qed.
+
+(* the class is exactly where the head of parse_match rejects *)
+Lemma head_rejects_iff_proof : forall t, mem c_bang t = false ->
+  (parse_head t = HBadGlob <-> head_rejects t = true).
+Proof.
+  intros t Hb. destruct (head_cases t Hb) as [[H1 H2]|[H1 [rs H2]]]; rewrite H1, H2; split; congruence.
+Qed.
+
+Lemma class_rejected_proof : forall fix_ t, mem c_bang t = false -> head_rejects t = true ->
+  parse_match_gen fix_ t = EParse.
+Proof.
+  intros fix_ t Hb Hr. destruct (head_cases t Hb) as [[_ H2]|[H1 _]]; [|congruence].
+  unfold parse_match_gen. cbn [parse_match_fuel]. rewrite H2. reflexivity.
+Qed.
+
+(* outside the class, a text that is a valid atom and reads as one is accepted as that atom *)
+Lemma atom_accepted_partial_proof : forall fix_ t a,
+  mem c_bang t = false -> head_rejects t = false -> atom_shaped t = true ->
+  Model_C03.parse_atom None false (strip t) = Model_C03.Ok a ->
+  parse_match_gen fix_ t = atom_result t
+  /\ (Model_C03.a_transitive a = false -> parse_match_gen fix_ t = Ok (QAtom a)).
+Proof.
+  intros fix_ t a Hb Hr Hs Ha.
+  destruct (head_cases t Hb) as [[H1 _]|[_ [rs Hh]]]; [congruence|].
+  unfold atom_shaped in Hs. apply andb_true_iff in Hs as [Hsl Hop].
+  unfold parse_match_gen, atom_result. cbn [parse_match_fuel]. rewrite Hh.
+  destruct (split_last_some _ _ Hsl) as (c & n & ->). rewrite Hop, Ha.
+  split; [reflexivity|]. intros ->. reflexivity.
+Qed.
+
 (* ------------------------------------------------------------------ pinned tree vs repaired *)
 (* the two behaviours differ only on texts that contain both a ":" and a "*" *)
 Lemma head_nocolon t : mem c_colon t = false ->
@@ -581,6 +641,12 @@ Proof.
   assert (E : parse_match t_slotstar = EParse) by (vm_compute; reflexivity).
   congruence.
 Qed.
+
+Example ex_atom_class :
+  atom_class t_slotstar = true /\ head_rejects t_slotstar = true
+  /\ atom_class (s2l "a/b:*"%bs) = false /\ atom_shaped (s2l "=a/b-1*:*::r[x]"%bs) = true
+  /\ head_rejects (s2l "=a/b-1*:*::r[x]"%bs) = false.
+Proof. repeat split; vm_compute; reflexivity. Qed.
 
 (* ------------------------------------------------------------------ non-vacuity *)
 Definition t_pair : str := s2l " dev-*/qt*:5*/*15::gentoo "%bs.
